@@ -24,6 +24,14 @@ type File struct {
 	Lits []*Literal `json:"lits,omitempty"` // .go
 	Pad  int        `json:"pad,omitempty"`  // blank lines at the top of the file
 	OneLine bool    `json:"oneline,omitempty"` // .go: all literals interpreted, elements of ONE composite literal on one source line
+	EOL     string  `json:"eol,omitempty"`     // line terminator of the GraphQL text ("" = "\n"; "\r\n"; "\r"): the whole .graphql file, the value of interpreted Go literals
+}
+
+func (f *File) eol(s string) string {
+	if f.EOL == "" || f.EOL == "\n" {
+		return s
+	}
+	return strings.ReplaceAll(s, "\n", f.EOL)
 }
 
 type Layout struct {
@@ -72,6 +80,11 @@ func RandomLayout(r *core.Rng, n int, allowGo bool) *Layout {
 		} else {
 			l.Files = append(l.Files, &File{Name: fmt.Sprintf("ops/f%d%s", i, graphqlExts[r.Intn(len(graphqlExts))]), Defs: b, Pad: r.Intn(3)})
 		}
+	}
+	// line terminators: derived from what was drawn already (no extra draws, so that the
+	// definitions and layouts of existing seeds stay what they were)
+	for i, f := range l.Files {
+		f.EOL = []string{"", "", "\r\n", "", "\r", ""}[(f.Pad+i+len(f.Defs)+2*len(f.Lits))%6]
 	}
 	return l
 }
@@ -132,7 +145,7 @@ func (l *Layout) Render(defs []*Def) (files map[string]string, where map[int]Loc
 						where[d] = Loc{File: f.Name, Line: line, LitLine: line, InLit: off + 1, Interpreted: true}
 						off += strings.Count(defs[d].Text, "\n") + 1
 					}
-					emit(strconv.Quote(litText(lit, defs)))
+					emit(strconv.Quote(f.eol(litText(lit, defs))))
 				}
 				emit("}\n")
 				files[f.Name] = sb.String()
@@ -144,7 +157,7 @@ func (l *Layout) Render(defs []*Def) (files map[string]string, where map[int]Loc
 				if lit.Raw {
 					quoted = "`" + text + "`"
 				} else {
-					quoted = strconv.Quote(text)
+					quoted = strconv.Quote(f.eol(text))
 				}
 				form := goForms[lit.Form%len(goForms)]
 				pre := form[:strings.Index(form, "%s")]
@@ -172,6 +185,8 @@ func (l *Layout) Render(defs []*Def) (files map[string]string, where map[int]Loc
 				emit(defs[d].Text)
 				emit("\n")
 			}
+			files[f.Name] = f.eol(sb.String())
+			continue
 		}
 		files[f.Name] = sb.String()
 	}
